@@ -1,6 +1,114 @@
-//! C16 (b) – the real property-test loop on compiled Aiken fuzzers (placeholder until built).
+//! C16 (b) – the real property-test loop on compiled Aiken fuzzers.
+//!
+//! Fuzzers (a 40-line library over the prelude's PRNG: byte, map, and_then, list_of, both)
+//! and properties are compiled from source; every (property x expectation x seed) is run
+//! through the real `PropertyTest::run` / `run_n_times`.  Oracle: an independent replay of the
+//! loop from public pieces (`Prng::from_seed`, `Prng::sample`, `PropertyTest::eval`) gives the
+//! first iteration whose input must be kept; then
+//!   - two runs are identical;
+//!   - the iteration count and the success verdict equal the oracle's;
+//!   - the reported counterexample is real: re-applying the property to it gives the outcome
+//!     the expectation calls a counterexample (the property FAILS on it for a plain or
+//!     `fail once` test, SUCCEEDS on it for a `fail` test);
+//!   - `Prng::from_choices(choices).sample` regenerates exactly the reported value;
+//!   - the reported choices are not larger (shortlex) than those of the first kept input.
+
+use crate::driver::Proj;
+use aiken_lang::ast::{Definition, ModuleKind, OnTestFailure};
+use aiken_lang::plutus_version::PlutusVersion;
+use aiken_lang::test_framework::{Prng, PropertyTest, Test, TestResult};
 use serde_json::{json, Value as J};
-use vcore::evid::{Run, Tier};
+use std::collections::{BTreeMap, HashSet};
+use vcore::evid::{guarded, Run, Tier, Violation};
+
+pub const FUZZ_LIB: &str = r#"use aiken/builtin
+
+pub fn byte() -> Fuzzer<Int> {
+  fn(prng: PRNG) -> Option<(PRNG, Int)> {
+    when prng is {
+      Seeded { seed, choices } -> {
+        let choice = builtin.index_bytearray(seed, 0)
+        Some(
+          (
+            Seeded {
+              seed: builtin.blake2b_256(seed),
+              choices: builtin.cons_bytearray(choice, choices),
+            },
+            choice,
+          ),
+        )
+      }
+      Replayed { cursor, choices } ->
+        if cursor >= 1 {
+          let cursor = cursor - 1
+          Some((Replayed { cursor, choices }, builtin.index_bytearray(choices, cursor)))
+        } else {
+          None
+        }
+    }
+  }
+}
+
+pub fn constant(a: a) -> Fuzzer<a> {
+  fn(prng) { Some((prng, a)) }
+}
+
+pub fn map(fuzz_a: Fuzzer<a>, f: fn(a) -> b) -> Fuzzer<b> {
+  fn(prng) {
+    when fuzz_a(prng) is {
+      Some((prng2, a)) -> Some((prng2, f(a)))
+      None -> None
+    }
+  }
+}
+
+pub fn and_then(fuzz_a: Fuzzer<a>, f: fn(a) -> Fuzzer<b>) -> Fuzzer<b> {
+  fn(prng) {
+    when fuzz_a(prng) is {
+      Some((prng2, a)) -> f(a)(prng2)
+      None -> None
+    }
+  }
+}
+
+pub fn both(fuzz_a: Fuzzer<a>, fuzz_b: Fuzzer<b>) -> Fuzzer<(a, b)> {
+  and_then(fuzz_a, fn(a) { map(fuzz_b, fn(b) { (a, b) }) })
+}
+
+pub fn list_of_n(n: Int, fuzz_a: Fuzzer<a>) -> Fuzzer<List<a>> {
+  if n <= 0 {
+    constant([])
+  } else {
+    and_then(fuzz_a, fn(x) { map(list_of_n(n - 1, fuzz_a), fn(xs) { [x, ..xs] }) })
+  }
+}
+
+pub fn list_of(fuzz_a: Fuzzer<a>) -> Fuzzer<List<a>> {
+  and_then(byte(), fn(n) { list_of_n(n % 4, fuzz_a) })
+}
+"#;
+
+/// (name, fuzzer expression, argument pattern, body)
+const PROPS: [(&str, &str, &str, &str); 6] = [
+    ("even", "byte()", "n", "n % 2 == 0"),
+    ("small", "byte()", "n", "n < 200"),
+    ("short", "list_of(byte())", "xs", "length(xs) < 2"),
+    ("sum", "list_of(byte())", "xs", "sum(xs) < 300"),
+    ("always", "byte()", "n", "n >= 0"),
+    ("ordered", "both(byte(), byte())", "(a, b)", "a <= b"),
+];
+
+const MODES: [(&str, &str); 3] = [("plain", ""), ("fail", " fail"), ("once", " fail once")];
+
+pub fn test_module() -> String {
+    let mut s = String::from("use fuzz.{both, byte, list_of}\n\nfn length(xs: List<a>) -> Int {\n  when xs is {\n    [] -> 0\n    [_, ..rest] -> 1 + length(rest)\n  }\n}\n\nfn sum(xs: List<Int>) -> Int {\n  when xs is {\n    [] -> 0\n    [x, ..rest] -> x + sum(rest)\n  }\n}\n");
+    for (name, fz, pat, body) in PROPS {
+        for (mname, kw) in MODES {
+            s.push_str(&format!("\ntest p_{name}_{mname}({pat} via {fz}){kw} {{\n  {body}\n}}\n"));
+        }
+    }
+    s
+}
 
 #[derive(Default)]
 pub struct RealLoop {
@@ -10,10 +118,222 @@ pub struct RealLoop {
     pub summary: J,
 }
 
-pub fn run_real_loop(_run: &mut Run, _tier: Tier) -> RealLoop {
-    RealLoop { summary: json!("not built yet"), ..Default::default() }
+fn shortlex_le(a: &[u8], b: &[u8]) -> bool {
+    a.len() < b.len() || (a.len() == b.len() && a <= b)
 }
 
-pub fn replay(_case: &J, _path: &str) -> i32 {
-    2
+pub fn build_tests() -> Result<(Proj, Vec<PropertyTest>), String> {
+    let mut proj = Proj::new();
+    let tracing = crate::engine::silent();
+    proj.check_named("fuzz", ModuleKind::Lib, FUZZ_LIB, tracing).map_err(|e| format!("fuzz library: {:?}", e))?;
+    let typed = proj.check_named("props", ModuleKind::Lib, &test_module(), tracing).map_err(|e| format!("property module: {:?}", e))?;
+    let mut tests = vec![];
+    {
+        let mut g = proj.generator(tracing);
+        for def in typed.definitions() {
+            if let Definition::Test(t) = def {
+                match Test::from_function_definition(&mut g, t.clone(), "props".to_string(), std::path::PathBuf::from("props.ak"), aiken_lang::test_framework::RunnableKind::Test) {
+                    Test::PropertyTest(p) => tests.push(p),
+                    _ => return Err(format!("{} is not a property test", t.name)),
+                }
+            }
+        }
+        let _ = aiken_lang::verif_hooks::drain_pre_optimisation();
+    }
+    Ok((proj, tests))
+}
+
+/// does the property fail on `value`?
+fn fails_on(pt: &PropertyTest, value: &uplc::PlutusData, pv: &PlutusVersion) -> bool {
+    pt.eval(value, pv).failed(true, &pv.into())
+}
+
+fn is_kept(mode: &OnTestFailure, failure: bool) -> bool {
+    match mode {
+        OnTestFailure::FailImmediately | OnTestFailure::SucceedImmediately => failure,
+        OnTestFailure::SucceedEventually => !failure,
+    }
+}
+
+pub fn check_one(pt: &PropertyTest, seed: u32, n: usize, violations: &mut Vec<Violation>, outcomes: &mut HashSet<String>) -> (u64, u64) {
+    let pv = PlutusVersion::default();
+    let name = pt.name.clone();
+    let mode = format!("{:?}", pt.on_test_failure);
+    let case = json!({"engine":"c16b","test":name,"seed":seed,"max_success":n});
+    // ---- oracle: replay the loop from public pieces
+    let mut prng = Prng::from_seed(seed);
+    let mut first_kept: Option<(usize, Vec<u8>, uplc::PlutusData)> = None;
+    let mut iters = 0u64;
+    for i in 1..=n {
+        let Ok(Some((next, value))) = prng.sample(&pt.fuzzer.program) else {
+            violations.push(Violation { signature: format!("fuzzer-fails|{name}"), what: format!("{name}: the compiled fuzzer does not produce a value from a seeded PRNG (seed {seed}, iteration {i})"), case: case.clone() });
+            return (0, 0);
+        };
+        iters += 1;
+        let failure = fails_on(pt, &value, &pv);
+        if is_kept(&pt.on_test_failure, failure) {
+            first_kept = Some((i, next.choices(), value));
+            break;
+        }
+        prng = next;
+    }
+    // ---- the implementation, twice
+    let run_impl = || {
+        let mut labels = BTreeMap::new();
+        let mut remaining = n;
+        let r = pt.run_n_times(&mut remaining, Prng::from_seed(seed), &mut labels, &pv);
+        match r {
+            Ok(Some(ce)) => Ok((n - remaining, Some((ce.choices.clone(), ce.value.clone())), labels)),
+            Ok(None) => Ok((n - remaining, None, labels)),
+            Err(e) => Err(format!("{}", e)),
+        }
+    };
+    let a = guarded(run_impl);
+    let b = guarded(run_impl);
+    let (a, b) = match (a, b) {
+        (Ok(a), Ok(b)) => (a, b),
+        (Err(p), _) | (_, Err(p)) => {
+            violations.push(Violation { signature: format!("panic|property-test-loop|{}", vcore::evid::panic_site_file(&p)), what: format!("{name} (seed {seed}): running the property test panicked: {p}"), case });
+            return (1, iters);
+        }
+    };
+    if format!("{:?}", a) != format!("{:?}", b) {
+        violations.push(Violation { signature: format!("not-reproducible|{mode}"), what: format!("{name}: two runs with seed {seed} differ: {:?} vs {:?}", a, b), case: case.clone() });
+    }
+    let Ok((iterations, ce, _labels)) = a else {
+        violations.push(Violation { signature: format!("fuzzer-error|{name}"), what: format!("{name} (seed {seed}): {:?}", a.err()), case });
+        return (1, iters);
+    };
+    outcomes.insert(format!("{name}:{}:{:?}", iterations, ce.as_ref().map(|c| c.0.clone())));
+    match (&first_kept, &ce) {
+        (None, None) => {
+            if iterations != n {
+                violations.push(Violation { signature: format!("iteration-count|{mode}"), what: format!("{name} (seed {seed}): no input had to be kept in {n} iterations, but the run reports {iterations} iterations"), case: case.clone() });
+            }
+        }
+        (Some((i, c0, v0)), None) => violations.push(Violation {
+            signature: format!("counterexample-missed|{mode}"),
+            what: format!("{name} (seed {seed}): iteration {i} generates {:?} (choices {:?}) which must be kept under {mode}, but the run reports none", v0, c0),
+            case: case.clone(),
+        }),
+        (None, Some((c, v))) => violations.push(Violation {
+            signature: format!("spurious-counterexample|{mode}"),
+            what: format!("{name} (seed {seed}): none of the {n} generated inputs has to be kept under {mode}, but the run reports {:?} (choices {:?})", v, c),
+            case: case.clone(),
+        }),
+        (Some((i, c0, _)), Some((c, v))) => {
+            if iterations != *i {
+                violations.push(Violation { signature: format!("iteration-count|{mode}"), what: format!("{name} (seed {seed}): the first input to keep is generated at iteration {i}, the run reports {iterations}"), case: case.clone() });
+            }
+            // the counterexample is real
+            let failure = fails_on(pt, v, &pv);
+            if !is_kept(&pt.on_test_failure, failure) {
+                violations.push(Violation {
+                    signature: format!("reported-counterexample-is-not-one|{mode}"),
+                    what: format!("{name} (seed {seed}, {mode}): the reported counterexample {:?} (choices {:?}) is not one: the property {} on it", v, c, if failure { "fails" } else { "passes" }),
+                    case: case.clone(),
+                });
+            }
+            // it is regenerated by its choices
+            match Prng::from_choices(c).sample(&pt.fuzzer.program) {
+                Ok(Some((_, v2))) if v2 == *v => {}
+                other => violations.push(Violation {
+                    signature: format!("choices-do-not-regenerate-the-counterexample|{mode}"),
+                    what: format!("{name} (seed {seed}): replaying the reported choices {:?} gives {:?}, not the reported value {:?}", c, other.map(|o| o.map(|x| x.1)), v),
+                    case: case.clone(),
+                }),
+            }
+            if !shortlex_le(c, c0) {
+                violations.push(Violation { signature: format!("shrunk-is-larger|{mode}"), what: format!("{name} (seed {seed}): reported choices {:?} are larger than those of the first kept input {:?}", c, c0), case: case.clone() });
+            }
+        }
+    }
+    // the verdict, through the public TestResult
+    let res = guarded(|| pt.clone().run(seed, n, &pv));
+    if let Ok(r) = res {
+        let verdict = TestResult::<(), uplc::PlutusData>::PropertyTestResult(r).is_success();
+        let want = match pt.on_test_failure {
+            OnTestFailure::FailImmediately | OnTestFailure::SucceedEventually => first_kept.is_none(),
+            OnTestFailure::SucceedImmediately => first_kept.is_some(),
+        };
+        if verdict != want {
+            violations.push(Violation { signature: format!("verdict|{mode}"), what: format!("{name} (seed {seed}, {mode}): is_success() = {verdict} but the replayed loop says {want}"), case });
+        }
+    }
+    (1, iters)
+}
+
+pub fn run_real_loop(run: &mut Run, tier: Tier) -> RealLoop {
+    let (_proj, tests) = match build_tests() {
+        Ok(x) => x,
+        Err(e) => {
+            run.machinery_error(format!("C16(b): {e}"));
+            return RealLoop { summary: json!("not run"), ..Default::default() };
+        }
+    };
+    let seeds: u32 = if tier == Tier::Quick { 64 } else { 1024 };
+    let n = 30;
+    let mut violations = vec![];
+    let mut outcomes = HashSet::new();
+    let (mut runs, mut iterations) = (0u64, 0u64);
+    let start = std::time::Instant::now();
+    let cap = if tier == Tier::Quick { 30 } else { 1200 };
+    let mut capped = false;
+    'outer: for seed in 0..seeds {
+        for pt in &tests {
+            if start.elapsed().as_secs() > cap {
+                capped = true;
+                break 'outer;
+            }
+            let (r, i) = check_one(pt, seed, n, &mut violations, &mut outcomes);
+            runs += r;
+            iterations += i;
+        }
+    }
+    if capped {
+        run.cap_hit(&format!("C16(b): wall cap after {runs} (test, seed) runs"));
+    }
+    // at most 20 per signature
+    let mut per: BTreeMap<String, u64> = BTreeMap::new();
+    for v in violations {
+        let c = per.entry(v.signature.clone()).or_default();
+        *c += 1;
+        if *c <= 20 {
+            run.violation(v);
+        }
+    }
+    run.sample(json!({"engine":"c16b","test":"p_even_once","seed":0}));
+    if runs > 0 && outcomes.len() < 10 {
+        run.machinery_error("C16(b) vacuous: fewer than 10 distinct (test, outcome) pairs");
+    }
+    RealLoop { runs, iterations, distinct: outcomes.len() as u64, summary: json!({"property_tests": tests.len(), "seeds": seeds, "max_success": n, "runs": runs, "oracle_iterations": iterations, "distinct_outcomes": outcomes.len()}) }
+}
+
+pub fn replay(case: &J, path: &str) -> i32 {
+    let (_proj, tests) = match build_tests() {
+        Ok(x) => x,
+        Err(e) => {
+            println!("{e}");
+            return 2;
+        }
+    };
+    let name = case["test"].as_str().unwrap_or("");
+    let seed = case["seed"].as_u64().unwrap_or(0) as u32;
+    let n = case["max_success"].as_u64().unwrap_or(30) as usize;
+    let Some(pt) = tests.iter().find(|t| t.name == name) else {
+        println!("test {name} not found");
+        return 2;
+    };
+    let mut vs = vec![];
+    let mut o = HashSet::new();
+    check_one(pt, seed, n, &mut vs, &mut o);
+    for v in &vs {
+        println!("VIOLATION property=C16 replay={path}\n  {}", v.what);
+    }
+    if vs.is_empty() {
+        println!("no violation on replay");
+        0
+    } else {
+        1
+    }
 }
